@@ -102,6 +102,62 @@ pub fn response_faults(codec: Codec, resp: &Resp) -> (Vec<u8>, Vec<Vec<u8>>) {
     }
 }
 
+pub const LISTED_PANIC_KEYS: [&str; 3] = [
+    "kv/response-kind-mismatch",
+    "time/response-kind-mismatch",
+    "status-not-in-enum",
+];
+
+/// Which listed cause (DESIGN K9 / K5) a well-formed answer to `op` really is an instance of:
+/// a KeyValueResponse of another kind than the operation, a TimeResponse of another kind or
+/// with another timer id than the request (the Command-API requests check that; the app's
+/// Command-API timers are NotifyAfter and the Clear that expects an answer), an HTTP status
+/// outside http-types' enum. `None`: the answer matches its request - a panic on it is NOT
+/// the listed finding, wherever it is raised.
+pub fn listed_cause(op: &Op, kind: Kind, resp: &Resp) -> Option<&'static str> {
+    use crux_kv::{KeyValueOperation as O, KeyValueResponse as R, KeyValueResult};
+    use crux_time::TimeRequest as T;
+    match (op, resp) {
+        (Op::Kv(o), Resp::Kv(KeyValueResult::Ok { response })) => {
+            let matches = matches!(
+                (o, response),
+                (O::Get { .. }, R::Get { .. })
+                    | (O::Set { .. }, R::Set { .. })
+                    | (O::Delete { .. }, R::Delete { .. })
+                    | (O::Exists { .. }, R::Exists { .. })
+                    | (O::ListKeys { .. }, R::ListKeys { .. })
+            );
+            (!matches).then_some("kv/response-kind-mismatch")
+        }
+        (Op::Time(t), Resp::Time(r)) if kind == Kind::Once => {
+            let matches = match (t, r) {
+                (T::NotifyAfter { id, .. }, TimeResponse::DurationElapsed { id: got }) => id == got,
+                (T::Clear { id }, TimeResponse::Cleared { id: got }) => id == got,
+                // the app's NotifyAt and Now requests come from the legacy API, which hands any
+                // TimeResponse to the app unchecked
+                (T::NotifyAt { .. }, _) | (T::Now, _) => true,
+                _ => false,
+            };
+            (!matches).then_some("time/response-kind-mismatch")
+        }
+        (Op::Http(_), Resp::Http(HttpRes::Ok(r))) => crux_http::http::StatusCode::try_from(r.status)
+            .is_err()
+            .then_some("status-not-in-enum"),
+        _ => None,
+    }
+}
+
+/// The key of a captured panic, narrowed: a listed key survives only if the input really is an
+/// instance of that listed cause.
+pub fn narrowed_panic_key(p: &mc_kit::PanicInfo, cause: Option<&'static str>) -> String {
+    let key = panic_key(p);
+    if LISTED_PANIC_KEYS.contains(&key.as_str()) && cause != Some(key.as_str()) {
+        format!("panic-at-listed-site-for-another-input/{key}")
+    } else {
+        key
+    }
+}
+
 #[derive(Default, Clone, Debug)]
 pub struct FaultStats {
     pub inputs: u64,
@@ -180,8 +236,13 @@ impl System {
     }
 
     fn panic_finding(&self, p: &mc_kit::PanicInfo) -> Finding {
+        self.panic_finding_for(p, None)
+    }
+
+    /// `cause`: the listed cause the offered input really is an instance of, if any.
+    fn panic_finding_for(&self, p: &mc_kit::PanicInfo, cause: Option<&'static str>) -> Finding {
         Finding {
-            key: panic_key(p),
+            key: narrowed_panic_key(p, cause),
             what: format!(
                 "{} panicked: {} ({}:{})",
                 self.lanes[X].kind.name(),
@@ -320,14 +381,57 @@ impl System {
         self.last = format!("typed twin not yet told | {}", o.class());
         let wf = if decoded.is_ok() { "-wellformed" } else { "" };
         let mut f = self.account(&format!("{target}{wf}"), b, &o.class());
+        // a NotifyAfter whose timer the app has since cleared is an orphan: its task has moved on
+        // to the Clear request, nobody looks at its answer any more (so no listed cause either)
+        let orphaned = match &raw {
+            Op::Time(crux_time::TimeRequest::NotifyAfter { id, .. }) => {
+                self.lanes[X].reqs.iter().any(|r| {
+                    matches!(&r.raw, Op::Time(crux_time::TimeRequest::Clear { id: c }) if c == id)
+                })
+            }
+            _ => false,
+        };
+        let cause = decoded
+            .as_ref()
+            .ok()
+            .filter(|_| !orphaned)
+            .and_then(|r| listed_cause(&raw, kind, r));
         if let Outcome::Panicked(p) = &o {
-            f.push(self.panic_finding(p));
+            f.push(self.panic_finding_for(p, cause));
             return f;
+        }
+        if let (Some(cause), Outcome::Ok(_)) = (cause, &o) {
+            // today such an answer panics (listed); if it is accepted instead, the app must at
+            // least be told about an error - an answer of the wrong kind delivered as a success
+            // is a different, unlisted violation
+            let log = self.lanes[X].view().map(|v| v.log).unwrap_or_default();
+            let told = log.last().is_some_and(|l| l.contains("Err") || l.contains("error"));
+            if !told {
+                f.push(Finding {
+                    key: format!("{cause}/accepted-and-delivered-as-success"),
+                    what: format!(
+                        "a well-formed answer of the wrong kind to {raw:?} was accepted without panic or error; last log entry {:?}",
+                        log.last()
+                    ),
+                });
+                return f;
+            }
         }
         match decoded {
             Ok(resp_x) => {
                 let resp_t = self.translate(&resp_x);
                 let o0 = self.lanes[T].respond_typed(ht, &resp_t);
+                if let Outcome::Panicked(p0) = &o0 {
+                    f.push(Finding {
+                        key: "wellformed-answer/bridge-accepts-what-the-typed-core-panics-on".into(),
+                        what: format!(
+                            "the bridge answered {} to {raw:?} where the typed core panicked: {}",
+                            o.class(),
+                            p0.message.lines().next().unwrap_or("")
+                        ),
+                    });
+                    return f;
+                }
                 if !self.lanes[T].reqs[ht].live {
                     let e = self.out.remove(k);
                     self.freed[X].insert(self.lanes[X].reqs[e.h[X]].id);
